@@ -118,10 +118,7 @@ def parseEnv (fs : List String) : Option Env :=
     | _, _, _, _ => none
   | _ => none
 
-def jsonCellOf (ty : Char) (c : Cell) : Cell :=
-  match ty, c with
-  | 'Y', .bin s => .str s
-  | _, c => c
+def jsonCellOf (_ : Char) (c : Cell) : Cell := c
 
 def step (_ : Unit) (fs : List String) : Unit × String :=
   let out : String :=
@@ -130,6 +127,17 @@ def step (_ : Unit) (fs : List String) : Unit × String :=
       (match unhexN h with
        | some s => let o := writeJSONString s; s!"{hexN o} dec={optHex (jsonDecode o)}"
        | none => "bad-op")
+    | ["jblob", h] =>
+      (match unhexN h with
+       | some s =>
+         let o := writeJSONString (blobText s)
+         let d := match jsonDecode o with | some t => blobDecode t | none => none
+         s!"{hexN o} dec={optHex d}"
+       | none => "bad-op")
+    | ["jdecimal", v, sc] =>
+      (match int? v, nat? sc with
+       | some v, some sc => asciiStr (writeJSONString (decimalText v sc))
+       | _, _ => "bad-op")
     | ["jdec", h] =>
       (match unhexN h with
        | some s => s!"dec={optHex (jsonDecode s)}"
